@@ -11,13 +11,13 @@ Local Open Scope Z_scope.
    leaves everything it does not address unchanged (frame).  The model is state-passing: a mutating function
    returns `res state`, and `Panic k` carries no state -- a rejected call leaves the receiver the caller passed in.
    One theorem per family; every entry is named in it (g_<entry> occurs in its conjuncts).
-   Lemmas: Proofs/GuardsModel{Vec,Mat,Solve,Band,Tri,Sparse,Iter,Mesh,Poly,Native}.v, bridged through guard_<entry>.
+   Lemmas: Proofs/GuardsModel{Vec,Mat,Solve,Band,Tri,Sparse,Iter,Mesh,Poly,Native,Atomic,Legacy}.v, bridged through guard_<entry>.
    ====================================================================================================== *)
 From Coq Require Import List Arith Permutation Floats.
 From OV Require Import Base.Panic Base.Arith Inst.QcInst Inst.FloatInst Model.Complex.
 From OV Require Import Model.Vector Model.ParDot Model.Matrix Model.Solve Model.Banded Model.Tridiag Model.Sparse Model.Iter Model.Mesh Model.Poly Model.Roots.
 From OV Require Proofs.Matrix Proofs.LUPrim Proofs.LUQc Proofs.SolveBase Proofs.Solve Proofs.Banded Proofs.BandedComplete Proofs.Tridiag Proofs.SparseBase Proofs.SparseViews Proofs.MeshBase Proofs.MeshStore.
-From OV Require Proofs.GuardsModelBase Proofs.GuardsModelVec Proofs.GuardsModelMat Proofs.GuardsModelSolve Proofs.GuardsModelBand Proofs.GuardsModelTri Proofs.GuardsModelSparse Proofs.GuardsModelIter Proofs.GuardsModelMesh Proofs.GuardsModelPoly Proofs.GuardsModelNative Proofs.GuardsModelLegacy Proofs.GuardsModelFamilies.
+From OV Require Proofs.GuardsModelBase Proofs.GuardsModelVec Proofs.GuardsModelMat Proofs.GuardsModelSolve Proofs.GuardsModelBand Proofs.GuardsModelTri Proofs.GuardsModelSparse Proofs.GuardsModelIter Proofs.GuardsModelMesh Proofs.GuardsModelPoly Proofs.GuardsModelNative Proofs.GuardsModelAtomic Proofs.GuardsModelLegacy Proofs.GuardsModelFamilies.
 Import ListNotations.
 Local Open Scope nat_scope.
 (* used by the non-vacuity Examples only: `panics_with k r = true` iff r = Panic k (keeps the evaluated goals small) *)
@@ -1343,6 +1343,132 @@ Example entry_contract_mesh_nonvacuous :
   g_mesh1_set_nodes_vars 3 2 3 2 = true /\ panics_with Guard (set_nodes_vars1 l 3 [q 1 1; q 2 1]) = true /\ is_ok (set_nodes_vars1 l 2 [q 1 1; q 2 1]) = true /\
   g_mesh1_get_nodes_vars 3 2 3 = true /\ panics_with Guard (get_nodes_vars1 l 3) = true.
 Proof. split; [apply MeshStore.mesh2_new_wf|]. split; [apply MeshStore.mesh1_new_wf|]. vm_compute. repeat split; reflexivity. Qed.
+
+(* ---- nothing else is written: every MUTATING checked entry point, on EVERY well-formed receiver / operand and for ALL arguments, either raises
+   the guard panic on entry (the model returns no state: the receiver is untouched) or returns the new state -- there is no third outcome, in
+   particular no index / underflow panic part-way through a writing loop (which would leave a half-written receiver in the implementation). ---- *)
+Theorem mutators_guard_or_return :
+  (* atomic_vec_add_assign *)
+    (forall (A : Arith) (u v : list A), vadd_assign u v = Panic Guard \/ (exists s' : list A, vadd_assign u v = Ok s')) /\
+  (* atomic_vec_sub_assign *)
+    (forall (A : Arith) (u v : list A), vsub_assign u v = Panic Guard \/ (exists s' : list A, vsub_assign u v = Ok s')) /\
+  (* atomic_mat_set_row *)
+    (forall (A : Arith) (m : matrix A) (row : nat) (v : list A),
+     Matrix.wf m -> set_row m row v = Panic Guard \/ (exists s' : matrix A, set_row m row v = Ok s')) /\
+  (* atomic_mat_set_col *)
+    (forall (A : Arith) (m : matrix A) (col : nat) (v : list A),
+     Matrix.wf m -> set_col m col v = Panic Guard \/ (exists s' : matrix A, set_col m col v = Ok s')) /\
+  (* atomic_mat_fill_row *)
+    (forall (A : Arith) (m : matrix A) (row : nat) (x : A),
+     Matrix.wf m -> fill_row m row x = Panic Guard \/ (exists s' : matrix A, fill_row m row x = Ok s')) /\
+  (* atomic_mat_fill_col *)
+    (forall (A : Arith) (m : matrix A) (col : nat) (x : A),
+     Matrix.wf m -> fill_col m col x = Panic Guard \/ (exists s' : matrix A, fill_col m col x = Ok s')) /\
+  (* atomic_mat_swap_rows *)
+    (forall (A : Arith) (m : matrix A) (r1 r2 : nat),
+     Matrix.wf m -> swap_rows m r1 r2 = Panic Guard \/ (exists s' : matrix A, swap_rows m r1 r2 = Ok s')) /\
+  (* atomic_mat_delete_row *)
+    (forall (A : Arith) (m : matrix A) (row : nat),
+     Matrix.wf m -> delete_row m row = Panic Guard \/ (exists s' : matrix A, delete_row m row = Ok s')) /\
+  (* atomic_mat_add_assign *)
+    (forall (A : Arith) (a b : matrix A),
+     Matrix.wf a -> Matrix.wf b -> madd_assign a b = Panic Guard \/ (exists s' : matrix A, madd_assign a b = Ok s')) /\
+  (* atomic_mat_sub_assign *)
+    (forall (A : Arith) (a b : matrix A),
+     Matrix.wf a -> Matrix.wf b -> msub_assign a b = Panic Guard \/ (exists s' : matrix A, msub_assign a b = Ok s')) /\
+  (* atomic_band_fill_band *)
+    (forall (A : Arith) (B : banded A) (band : Z) (x : A),
+     Banded.wfB B -> band_fill_band B band x = Panic Guard \/ (exists s' : banded A, band_fill_band B band x = Ok s')) /\
+  (* atomic_band_index_mut *)
+    (forall (A : Arith) (B : banded A) (i j : nat) (x : A),
+     Banded.wfB B -> i < bn B -> band_set B i j x = Panic Guard \/ (exists s' : banded A, band_set B i j x = Ok s')) /\
+  (* atomic_band_add_assign *)
+    (forall (A : Arith) (B C : banded A),
+     Banded.wfB B -> Banded.wfB C -> band_add_assign B C = Panic Guard \/ (exists s' : banded A, band_add_assign B C = Ok s')) /\
+  (* atomic_band_sub_assign *)
+    (forall (A : Arith) (B C : banded A),
+     Banded.wfB B -> Banded.wfB C -> band_sub_assign B C = Panic Guard \/ (exists s' : banded A, band_sub_assign B C = Ok s')) /\
+  (* atomic_tri_index_mut *)
+    (forall (A : Arith) (t : tridiag A) (i j : nat) (x : A),
+     Tridiag.wfT t -> tset t i j x = Panic Guard \/ (exists s' : tridiag A, tset t i j x = Ok s')) /\
+  (* atomic_sp_insert *)
+    (forall (A : Arith) (s : sparse A) (row col : nat) (v : A),
+     SparseBase.wfS s -> sp_insert s row col v = Panic Guard \/ (exists s' : sparse A, sp_insert s row col v = Ok s')) /\
+  (* atomic_poly_index_mut *)
+    (forall (A : Arith) (p : list A) (i : nat) (x : A), pindex_set p i x = Panic Guard \/ (exists s' : poly, pindex_set p i x = Ok s')) /\
+  (* atomic_mesh1_set_nodes_vars *)
+    (forall (A : Arith) (X : Type) (m : mesh1 A X) (node : nat) (v : list A),
+     MeshBase.wf1 m -> set_nodes_vars1 m node v = Panic Guard \/ (exists s' : mesh1 A X, set_nodes_vars1 m node v = Ok s')) /\
+  (* atomic_mesh2_set_nodes_vars *)
+    (forall (A : Arith) (X : Type) (m : mesh2 A X) (i j : nat) (v : list A),
+     MeshBase.wf2 m ->
+     (exists k : pkind, set_nodes_vars2 m i j v = Panic k /\ GuardsModelMesh.guard_or_empty_underflow m k) \/
+     (exists m' : mesh2 A X, set_nodes_vars2 m i j v = Ok m')).
+Proof. exact GuardsModelFamilies.mutators_guard_or_return_lemma. Qed.
+Check mutators_guard_or_return :
+  (* atomic_vec_add_assign *)
+    (forall (A : Arith) (u v : list A), vadd_assign u v = Panic Guard \/ (exists s' : list A, vadd_assign u v = Ok s')) /\
+  (* atomic_vec_sub_assign *)
+    (forall (A : Arith) (u v : list A), vsub_assign u v = Panic Guard \/ (exists s' : list A, vsub_assign u v = Ok s')) /\
+  (* atomic_mat_set_row *)
+    (forall (A : Arith) (m : matrix A) (row : nat) (v : list A),
+     Matrix.wf m -> set_row m row v = Panic Guard \/ (exists s' : matrix A, set_row m row v = Ok s')) /\
+  (* atomic_mat_set_col *)
+    (forall (A : Arith) (m : matrix A) (col : nat) (v : list A),
+     Matrix.wf m -> set_col m col v = Panic Guard \/ (exists s' : matrix A, set_col m col v = Ok s')) /\
+  (* atomic_mat_fill_row *)
+    (forall (A : Arith) (m : matrix A) (row : nat) (x : A),
+     Matrix.wf m -> fill_row m row x = Panic Guard \/ (exists s' : matrix A, fill_row m row x = Ok s')) /\
+  (* atomic_mat_fill_col *)
+    (forall (A : Arith) (m : matrix A) (col : nat) (x : A),
+     Matrix.wf m -> fill_col m col x = Panic Guard \/ (exists s' : matrix A, fill_col m col x = Ok s')) /\
+  (* atomic_mat_swap_rows *)
+    (forall (A : Arith) (m : matrix A) (r1 r2 : nat),
+     Matrix.wf m -> swap_rows m r1 r2 = Panic Guard \/ (exists s' : matrix A, swap_rows m r1 r2 = Ok s')) /\
+  (* atomic_mat_delete_row *)
+    (forall (A : Arith) (m : matrix A) (row : nat),
+     Matrix.wf m -> delete_row m row = Panic Guard \/ (exists s' : matrix A, delete_row m row = Ok s')) /\
+  (* atomic_mat_add_assign *)
+    (forall (A : Arith) (a b : matrix A),
+     Matrix.wf a -> Matrix.wf b -> madd_assign a b = Panic Guard \/ (exists s' : matrix A, madd_assign a b = Ok s')) /\
+  (* atomic_mat_sub_assign *)
+    (forall (A : Arith) (a b : matrix A),
+     Matrix.wf a -> Matrix.wf b -> msub_assign a b = Panic Guard \/ (exists s' : matrix A, msub_assign a b = Ok s')) /\
+  (* atomic_band_fill_band *)
+    (forall (A : Arith) (B : banded A) (band : Z) (x : A),
+     Banded.wfB B -> band_fill_band B band x = Panic Guard \/ (exists s' : banded A, band_fill_band B band x = Ok s')) /\
+  (* atomic_band_index_mut *)
+    (forall (A : Arith) (B : banded A) (i j : nat) (x : A),
+     Banded.wfB B -> i < bn B -> band_set B i j x = Panic Guard \/ (exists s' : banded A, band_set B i j x = Ok s')) /\
+  (* atomic_band_add_assign *)
+    (forall (A : Arith) (B C : banded A),
+     Banded.wfB B -> Banded.wfB C -> band_add_assign B C = Panic Guard \/ (exists s' : banded A, band_add_assign B C = Ok s')) /\
+  (* atomic_band_sub_assign *)
+    (forall (A : Arith) (B C : banded A),
+     Banded.wfB B -> Banded.wfB C -> band_sub_assign B C = Panic Guard \/ (exists s' : banded A, band_sub_assign B C = Ok s')) /\
+  (* atomic_tri_index_mut *)
+    (forall (A : Arith) (t : tridiag A) (i j : nat) (x : A),
+     Tridiag.wfT t -> tset t i j x = Panic Guard \/ (exists s' : tridiag A, tset t i j x = Ok s')) /\
+  (* atomic_sp_insert *)
+    (forall (A : Arith) (s : sparse A) (row col : nat) (v : A),
+     SparseBase.wfS s -> sp_insert s row col v = Panic Guard \/ (exists s' : sparse A, sp_insert s row col v = Ok s')) /\
+  (* atomic_poly_index_mut *)
+    (forall (A : Arith) (p : list A) (i : nat) (x : A), pindex_set p i x = Panic Guard \/ (exists s' : poly, pindex_set p i x = Ok s')) /\
+  (* atomic_mesh1_set_nodes_vars *)
+    (forall (A : Arith) (X : Type) (m : mesh1 A X) (node : nat) (v : list A),
+     MeshBase.wf1 m -> set_nodes_vars1 m node v = Panic Guard \/ (exists s' : mesh1 A X, set_nodes_vars1 m node v = Ok s')) /\
+  (* atomic_mesh2_set_nodes_vars *)
+    (forall (A : Arith) (X : Type) (m : mesh2 A X) (i j : nat) (v : list A),
+     MeshBase.wf2 m ->
+     (exists k : pkind, set_nodes_vars2 m i j v = Panic k /\ GuardsModelMesh.guard_or_empty_underflow m k) \/
+     (exists m' : mesh2 A X, set_nodes_vars2 m i j v = Ok m')).
+Print Assumptions mutators_guard_or_return.
+(* non-vacuity: both outcomes occur for the same receiver *)
+Example mutators_guard_or_return_nonvacuous :
+  let M : matrix AQ := @mkM AQ [q 1 1; q 2 1; q 3 1; q 4 1; q 5 1; q 6 1] 2 3 in
+  Matrix.wf M /\ panics_with Guard (set_row M 2 [q 1 1; q 2 1; q 3 1]) = true /\ is_ok (set_row M 1 [q 1 1; q 2 1; q 3 1]) = true /\
+  panics_with Guard (fill_col M 3 (q 0 1)) = true /\ is_ok (fill_col M 2 (q 0 1)) = true.
+Proof. vm_compute. repeat split; reflexivity. Qed.
 
 (* ---- the 13 entry points protected by std's own bounds checks only (no guard in the source, hence no g_<entry>; ranges = the `spec` column of
    driver/guardtable.py): Vector Index IndexMut swap insert pop, Banded Index beyond the last row, Mesh1D Index IndexMut coord, Mesh2D coord
